@@ -498,7 +498,10 @@ def store_thing(output, key, item):
             try:
                 output.write_array(key,np.array(item))
                 
-            except TypeError:
+            except (TypeError, ValueError):
+                # ragged or object-valued lists cannot become one array
+                # (TypeError from h5py for object arrays, ValueError from
+                # NumPy >= 1.24 for ragged input): store element by element
                 for idx,val in enumerate(item):
                     new_key = '{}{}'.format(key,idx)
                     store_thing(output,new_key,val)
